@@ -246,16 +246,36 @@ func (m *MemMapFs) lockfreeOpen(name string) (*mem.FileData, error) {
 	}
 }
 
+// openOrCreate looks name up and creates it if it is missing, in one critical section, so that
+// of several concurrent O_CREATE|O_EXCL opens of one name exactly one succeeds.
+func (m *MemMapFs) openOrCreate(name string, flag int, perm os.FileMode) (File, error) {
+	norm := normalizePath(name)
+	m.mu.Lock()
+	defer m.mu.Unlock()
+	if f, ok := m.getData()[norm]; ok {
+		if flag&os.O_EXCL > 0 {
+			return nil, &os.PathError{Op: "open", Path: name, Err: ErrFileExists}
+		}
+		return mem.NewFileHandle(f), nil
+	}
+	file := mem.CreateFile(norm)
+	mem.SetMode(file, perm)
+	m.getData()[norm] = file
+	m.registerWithParent(file, 0)
+	return mem.NewFileHandle(file), nil
+}
+
 func (m *MemMapFs) OpenFile(name string, flag int, perm os.FileMode) (File, error) {
 	perm &= chmodBits
-	chmod := false
-	file, err := m.openWrite(name)
-	if err == nil && (flag&os.O_EXCL > 0) {
-		return nil, &os.PathError{Op: "open", Path: name, Err: ErrFileExists}
-	}
-	if os.IsNotExist(err) && (flag&os.O_CREATE > 0) {
-		file, err = m.Create(name)
-		chmod = true
+	var file File
+	var err error
+	if flag&os.O_CREATE > 0 {
+		file, err = m.openOrCreate(name, flag, perm)
+	} else {
+		file, err = m.openWrite(name)
+		if err == nil && (flag&os.O_EXCL > 0) {
+			return nil, &os.PathError{Op: "open", Path: name, Err: ErrFileExists}
+		}
 	}
 	if err != nil {
 		return nil, err
@@ -276,9 +296,6 @@ func (m *MemMapFs) OpenFile(name string, flag int, perm os.FileMode) (File, erro
 			file.Close()
 			return nil, err
 		}
-	}
-	if chmod {
-		return file, m.setFileMode(name, perm)
 	}
 	return file, nil
 }
